@@ -189,7 +189,7 @@ fn behaviour(p: &ProbePool, c: &LimCase, other_sig: Option<(&str, &str, &str)>) 
         let blob = hss::private_key_blob(&c.levels, 1, &seed);
         let mut digest = <sha2::Sha256 as sha2::Digest>::new();
         let mut bad = Vec::new();
-        for k in 0..300u64 {
+        for k in 0..120u64 {
             let msg = gen::hex(&gen::expand(k ^ (c.seed << 20), 1 + (k % 40) as usize));
             let s = p.call(&json!({"op": "sign", "hash": hname(c.hash), "sk": gen::hex(&blob), "msg": msg, "accept": true}));
             let ok = match s["sig"].as_str() {
